@@ -31,7 +31,7 @@ LEVEL = "exploration"
 RULE = ("stateful generation: sends with mixed lifetimes and clock advances on a socket whose connection attempts are "
         "refused, then a connection; also never-opened / closed sockets.  Non-trivial: the history reached 10 pending "
         "entries, or an entry expired before the connection, or a send hit a closed socket; distinct by operation trace"
-        " Also: a write failure while connected followed by a burst of sends from a connection subscriber (the held retry counts; it may be the only short-lived entry).")
+        " Also: a write failure while connected followed by a burst of sends from a connection subscriber (the held retry counts; it may be the only short-lived entry); a console that accepts but does not read, so that the flush on connection stalls behind its first frame for 1/8..29 s while entries behind it expire.")
 ASSUMPTIONS = ["a message whose lifetime has exactly elapsed (now == accept + lifetime) counts as expired (statement: 'never at or after its lifetime has elapsed')"]
 
 LIFETIMES = [0.125, 1.0, 2.0, 30.0]
@@ -175,11 +175,15 @@ class Interp:
         self.open = False
         self.model = []
 
-    def op_connect(self):
-        """The network starts accepting; wait for the client's next attempt."""
+    def op_connect(self, hold=0.0):
+        """The network starts accepting; wait for the client's next attempt.
+        hold > 0: the console accepts but does not read - the first frame of the flush is taken, its drain() blocks for
+        `hold` seconds, and the entries behind it are looked at only then: those whose lifetime ran out meanwhile must not go out."""
         if not self.open:
             return
         self.rig.net.default = ("accept", 0.0)
+        if hold:
+            self.rig.net.pause_on_accept.append(1)
         loop = self.rig.loop
         for _ in range(80):
             if self.rig.sock.is_connected:
@@ -192,6 +196,22 @@ class Interp:
         alive = [m for m in self.model if t_open < m["expiry"]]
         if len(alive) != len(self.model):
             self.nt.add("expired-before-connection")
+        if hold:
+            tr = self.rig.net.current
+            self.rig.net.pause_on_accept.clear()
+            if tr is not None and tr.write_paused and alive:
+                loop.advance(hold)
+                t_rel = loop.time()
+                tr.pause_after = None
+                tr.resume_writing()
+                loop.settle()
+                late = [m for m in alive[1:] if not (t_rel < m["expiry"])]
+                alive = alive[:1] + [m for m in alive[1:] if t_rel < m["expiry"]]
+                self.nt.add("flush-stalled-on-connection")
+                if late:
+                    self.nt.add("expired-during-a-stalled-flush")
+            elif tr is not None:
+                tr.pause_after = None
         self.expect_wire = [{"exp": m["exp"], "kind": m["kind"]} for m in alive]
         self.model = []
         self.connected_phase = True
@@ -283,11 +303,11 @@ def make_machine(gen: int, stats: Stats):
             if self.x.open and not self.x.connected_phase:
                 self._do(["close"])
 
-        @rule()
-        def connect(self):
+        @rule(hold=st.sampled_from([0.0, 0.125, 1.0, 2.0, 2.0, 29.0, 29.0]))
+        def connect(self, hold):
             self._ensure()
             if not self.x.connected_phase:
-                self._do(["connect"])
+                self._do(["connect", hold] if hold else ["connect"])
 
         def teardown(self):
             if self.x is None:
@@ -311,7 +331,7 @@ def shards(tier: str):
 
 
 def floors(tier: str):
-    return {"overflow": 40, "expired-before-connection": 40, "send-not-open": 20, "connected": 200, "attempt-in-flight": 50,
+    return {"overflow": 40, "expired-before-connection": 40, "flush-stalled-on-connection": 80, "expired-during-a-stalled-flush": 15, "send-not-open": 20, "connected": 200, "attempt-in-flight": 50,
             "burst-after-write-failure": 30, "retry-held": 15}
 
 
